@@ -2,10 +2,28 @@
 use crate::framework::Property;
 
 pub mod c01;
+pub mod c04;
+pub mod c05;
+pub mod c06;
+pub mod c07;
+pub mod c11;
+pub mod c12;
+pub mod c17;
+pub mod c19;
+pub mod c20;
 
 pub fn get(id: &str) -> Option<Box<dyn Property>> {
     match id {
         "C01" => Some(Box::new(c01::C01)),
+        "C04" => Some(Box::new(c04::C04)),
+        "C05" => Some(Box::new(c05::C05)),
+        "C06" => Some(Box::new(c06::C06)),
+        "C07" => Some(Box::new(c07::C07)),
+        "C11" => Some(Box::new(c11::C11)),
+        "C12" => Some(Box::new(c12::C12)),
+        "C17" => Some(Box::new(c17::C17)),
+        "C19" => Some(Box::new(c19::C19)),
+        "C20" => Some(Box::new(c20::C20)),
         _ => None,
     }
 }
